@@ -155,6 +155,14 @@ def run(ctx):
     n_fail = n_ok = 0
     for ci, (lines, out, crashed, err) in enumerate(res):
         enc = chunks[ci][0]
+        if crashed and out and out[-1].strip() == "HANG" and enc != "none":
+            w = lines[len(out) - 1].split()
+            if w[0] == "put" and w[3].isdigit() and int(w[3]) >= 2 ** 40:
+                # a write at a sample number near 2^63 of a field whose encoding has no holes (text, sie, gzip, bzip2, lzma) asks the
+                # library to materialise 2^63 samples of padding: the harness watchdog stops it.  Not one of the outcomes C10 rules out.
+                ctx.coverage["unbounded_padding_writes_cut_short"] = ctx.coverage.get("unbounded_padding_writes_cut_short", 0) + 1
+                crashed = False
+                lines, out = lines[:len(out) - 1], out[:-1]
         if crashed:
             bad = lines[min(len(out), len(lines) - 1)]
             tn = taints(lines, out, len(out))
